@@ -182,6 +182,7 @@ func init() {
 }
 
 func runSplit1(m *Model, r *RuleResult) {
+	split1FreshSets(m, r)
 	top := func(f *ssa.Function) *ssa.Function {
 		for f.Parent() != nil {
 			f = f.Parent()
@@ -258,6 +259,120 @@ func sameMapValue(a, b ssa.Value) bool {
 		return true
 	}
 	return false
+}
+
+// split1FreshSets: the sets from which a component is cut hold the marks of one walk only. Every node / edge set handed to
+// the function that builds a component (it stores DGraph.Nodes / DGraph.Edges of a fresh graph) is either allocated in the
+// same loop iteration as that call or emptied with clear() in it: a scratch set that is reused but not cleared still holds
+// the previous components' edges, and the next component is built with edges whose nodes it does not contain.
+func split1FreshSets(m *Model, r *RuleResult) {
+	m.fxInit()
+	for _, f := range m.Src {
+		if shortPkg(pkgPathOf(f)) != "internal/graph/connected" {
+			continue
+		}
+		loops := naturalLoops(f)
+		ctl := m.FuncIsPosctl(f)
+		eachInstr(f, func(in ssa.Instruction) {
+			call, ok := in.(*ssa.Call)
+			if !ok {
+				return
+			}
+			c := call.Call.StaticCallee()
+			if c == nil || pkgPathOf(c) != pkgPathOf(f) || c == f {
+				return
+			}
+			builds := false
+			if e := m.effects[c]; e != nil {
+				for _, w := range e.Writes {
+					if w.Loc == igDG+".Nodes" || w.Loc == igDG+".Edges" {
+						builds = true
+					}
+				}
+			}
+			if !builds {
+				return
+			}
+			inLoops := loopsContaining(loops, call.Block())
+			var bad []string
+			nsets := 0
+			for _, a := range call.Call.Args {
+				mt, isMap := a.Type().Underlying().(*types.Map)
+				if !isMap {
+					continue
+				}
+				switch namedKey(mt.Key()) {
+				case igNode, igEdge:
+				default:
+					continue
+				}
+				nsets++
+				if len(inLoops) == 0 {
+					continue // outside any loop: the sets of the first walk
+				}
+				inner := inLoops[0]
+				fresh := false
+				if mk, isMk := a.(*ssa.MakeMap); isMk && inner.Body[mk.Block()] {
+					fresh = true
+				}
+				// returned, in this iteration, by a helper of the package that allocates it
+				var src *ssa.Call
+				idx := 0
+				switch x := a.(type) {
+				case *ssa.Extract:
+					src, _ = x.Tuple.(*ssa.Call)
+					idx = x.Index
+				case *ssa.Call:
+					src = x
+				}
+				if src != nil && inner.Body[src.Block()] {
+					if h := src.Call.StaticCallee(); h != nil && pkgPathOf(h) == pkgPathOf(f) && len(h.Blocks) > 0 {
+						nret, all := 0, true
+						eachInstr(h, func(in2 ssa.Instruction) {
+							if ret, ok := in2.(*ssa.Return); ok && idx < len(ret.Results) {
+								nret++
+								if _, isMk := ret.Results[idx].(*ssa.MakeMap); !isMk {
+									all = false
+								}
+							}
+						})
+						if nret > 0 && all {
+							fresh = true
+						}
+					}
+				}
+				if !fresh {
+					// clear(a) in this iteration, before the call
+					eachInstr(f, func(in2 ssa.Instruction) {
+						c2, ok := in2.(*ssa.Call)
+						if !ok || !inner.Body[c2.Block()] || !instrDominates(c2, call) {
+							return
+						}
+						if b, isB := c2.Call.Value.(*ssa.Builtin); isB && b.Name() == "clear" && len(c2.Call.Args) == 1 && c2.Call.Args[0] == a {
+							fresh = true
+						}
+					})
+				}
+				if !fresh {
+					bad = append(bad, "the set "+a.Name()+" passed at "+m.Pos(call.Pos())+" is neither allocated nor cleared in the iteration that builds the component: it still holds what earlier components left in it")
+				}
+			}
+			if nsets == 0 {
+				return
+			}
+			key := "component-sets-fresh:" + funcKey(f) + "->" + c.Name()
+			for _, o := range r.Obligations {
+				if o.Key == key && o.Verdict == "holds" && len(bad) == 0 {
+					return
+				}
+			}
+			if len(bad) == 0 {
+				r.add(Obligation{Key: key, Pos: m.Pos(call.Pos()), Desc: "a component is cut from sets that hold the marks of one walk only", Verdict: "holds", Control: ctl})
+			} else {
+				r.add(Obligation{Key: key, Pos: m.Pos(call.Pos()), Desc: "a component is cut from sets that hold the marks of one walk only", Verdict: "violation", Detail: strings.Join(uniq(bad), "; "), Control: ctl})
+			}
+		})
+	}
 }
 
 // ---------- ACYC-1 ----------
